@@ -201,6 +201,24 @@ CLAIMED = {
              "recorded stride-3 rolling-buffer finding is reported as KNOWN-FINDING.",
         technique="dynamic symbolic execution of the real Python functions over z3 proxies (symx), all feasible paths within the bound; counterexample replay",
         design="DESIGN.md §3 C03"),
+    "C16": dict(
+        text="Bounded solver verdict on the placement decision and the documented constraints (a lemma set): for every internal operator type with a "
+             "TFLite name, the REAL decision chain (tflite_semantic_checker, rewrite_graph_pre_order with supported_operator_check, "
+             "is_operator_semantic_valid, is_operator_supported) on a one-operator graph in which the verdict of every constraint function is a free "
+             "Boolean: run_on_npu is true exactly when all constraints hold that the REAL report generator (generate_supported_ops, run on the "
+             "current tree) lists for that operator - generic ones minus the bracketed exclusions plus the operator's own section - and an operator "
+             "missing from the report's table is never placed on the NPU; and, one constraint at a time, the real constraint function on a stand-in "
+             "operator with SYMBOLIC dimensions, strides, kernel sizes, dilations, axes, permutations, masks equals the predicate restated from the "
+             "sentence the report prints for it, with the numeric limits read from the generated report text (stride, dilated kernel, filter, "
+             "tensor dimension, batch, broadcast, depth multiplier, transpose convolution strides and shapes, resize scaling, half pixel centres, "
+             "arg max, mean products/width/depth/axes, pad shape, strided slice strides and ranges, transpose permutations, concatenation axis and "
+             "dimensions, split axis and divisibility, convolution groups, matching shapes).",
+        note="Partial: what happens to the operator after the decision (graph rewriting, pass packing, subgraph extraction) is outside, as are "
+             "constraints on tensor values (weight sums, 40-bit bias, quantisation scales), LSTM structure constraints and TOSA. The committed "
+             "SUPPORTED_OPS.md is not the oracle (it is older than the code); the property speaks of the report Vela generates. Trusted: z3, symx "
+             "proxies, the restated predicates (informal sentences: the reading is stated next to the predicate).",
+        technique="dynamic symbolic execution of the real Python functions over z3 proxies (symx), bounded; constraint verdicts as free Booleans; counterexample replay",
+        design="DESIGN.md §3 C16"),
 }
 
 NOT_APPLICABLE = {
@@ -210,7 +228,6 @@ NOT_APPLICABLE = {
     "C12": "needs the written output file and summary CSV of whole compilations; its arithmetic core (non-overlap, alignment, reported total) is decided under C05 (DESIGN §5)",
     "C13": "totality of the whole driver over all valid models and option combinations; no bounded encoding of 'all models' through reader, optimiser, scheduler and writer (DESIGN §5)",
     "C14": "determinism across process histories depends on uuid4, hash seeds, dict/set iteration and module caches, i.e. interpreter state, not a function of encodable inputs (DESIGN §5)",
-    "C16": "NPU/CPU placement is a whole-pipeline outcome and the report text is generated from the same constants the constraints use: no independent oracle for a solver (DESIGN §5)",
 }
 
 PENDING = {}  # id -> reason, for properties planned but whose check is not yet registered
